@@ -423,6 +423,19 @@ def p_blocks_after_mismatch(rng: Any) -> tuple[str, list[Any]]:
     return 'blocks/row@col-after-mismatch', [r1, k1, r2, k2]
 
 
+def p_blocks_triple(rng: Any) -> tuple[str, list[Any]]:
+    """Three block-diagonal operators with the same layout whose first block-wise product does not collapse (HWP then a
+    rotation) and whose third blocks complete a documented pattern with the second (two consecutive rotations)."""
+    n = int(rng.integers(1, 3))
+    sts = [_stokes(rng) for _ in range(n)]
+    b1 = [HWPOperator(st) for st in sts]
+    b2 = [QURotationOperator(gen.angles_for(rng, st), st) for st in sts]
+    b3 = [QURotationOperator(gen.angles_for(rng, st), st) for st in sts]
+    c = _block_container(rng, b1)
+    return 'blocks_triple/hwp,rot,rot', [BlockDiagonalOperator(c), BlockDiagonalOperator(_same_container(c, b1, b2)),
+                                          BlockDiagonalOperator(_same_container(c, b1, b3))]
+
+
 PATTERNS = {
     'inverse': p_inverse,
     'qurot': p_qurot,
@@ -439,6 +452,7 @@ PATTERNS = {
     'blockdiag_identities': p_blockdiag_identities,
     'blocks_cancel': p_blocks_cancel,
     'blocks_after_mismatch': p_blocks_after_mismatch,
+    'blocks_triple': p_blocks_triple,
 }
 
 INERT = ('dense', 'diagonal', 'toeplitz', 'broadcast_diagonal')
